@@ -19,7 +19,7 @@ CHECKS = {
         technique="bounded-exhaustive enumeration: all labelled DAGs x backend-state vectors x freshness x selections, submission sequence compared with a reference plan",
         text="All 25 labelled DAGs on 3 targets (thorough: + all 543 on 4 with reduced alphabets) x 6^n backend-state vectors x 3^n freshness x a selection alphabet "
         "(default, name subsets, fnmatch patterns, non-matching), plus all valid 2-target/3-file workflows x file states x backend vectors, through the real filter_names + "
-        "submit_workflow over a real TrackingBackend whose tracked file is written and re-read. Oracle on the submission *sequence*: set, multiplicity, order, exact prerequisite ids, tracked file.",
+        "submit_workflow over a real TrackingBackend whose tracked file is written and re-read. Oracle on the submission *sequence*: set, multiplicity, order, exact prerequisite ids, tracked file. Plus a CLI sub-bound: the real `gwf run <selection>` (plugins/run.py's own selection logic) on a simulated Slurm for all 25 DAGs x 3 freshness vectors x 13 selections incl. non-matching patterns.",
         note="Trusted: mc/ref/plan.py; scheduler answers are injected at TrackingBackend's ops interface (CLI-level agreement is C05/C08).",
     ),
     "C03": dict(
@@ -43,42 +43,42 @@ CHECKS = {
         technique="explicit-state BFS over world states; every transition executes the real gwf CLI in-process against simulated schedulers; relational + frame-condition oracle in every state",
         text="BFS (depth 2-4 quick, 4-6 thorough) from empty and fully-built projects of the fork/chain/diamond workflows on slurm (accounting on/off), sge, lsf, hashing on/off, under "
         "{run, run X, job start/finish-ok/finish-fail/cancel/forget, modify source, delete output}. In every state: status rows in cone(R) that are shouldrun/failed/cancelled = 'Would submit' set of run -d R = "
-        "submissions journaled by run R for every selection R; 14 filter/format combinations equal the restriction/counts of the full table; after status and run -d the scheduler journal has no submit/cancel and the semantic snapshot is unchanged.",
+        "submissions journaled by run R for every selection R; 14 filter/format combinations equal the restriction/counts of the full table; after status and run -d the scheduler journal has no submit/cancel and the semantic snapshot is unchanged. Local backend: the same agreement / no-side-effect checks in a BFS over world states in which gwf's real Client talks to the real Server/Scheduler on the virtual loop (incl. pool restarts). Fresh-process tier: a designated sub-bound (worlds reachable by <=2 actions x 6 commands x backends) re-run in separate interpreters with the simulator executables on PATH must be observationally equal.",
         note="Scheduler simulators are an assumption; local backend covered by the pool checks.",
     ),
     "C08": dict(
         level="model_checking", design="§4 C08",
         technique="exhaustive state-code table sweep + squeue x sacct matrix + explicit-state BFS over invocation histories with a reference view of the scheduler's job table",
         text="Every documented state code (24 squeue, 16 sacct incl. 'CANCELLED by', 11 LSF, 19 SGE) as the tracked job's state x file state with prefix-related ids and foreign jobs in the queue; the full squeue x sacct x accounting matrix incl. 'sacct never called when off'; "
-        "1..2049 tracked jobs; BFS over histories (run, run X, scheduler transitions, queue forget, lagging accounting, source modification) checking in every state, from a separate invocation, that each row equals the class of the scheduler-visible state of the job accepted at the target's last submission and that the tracked file names exactly those ids.",
+        "1..2049 tracked jobs; BFS over histories (run, run X, scheduler transitions, queue forget, lagging accounting, source modification) checking in every state, from a separate invocation, that each row equals the class of the scheduler-visible state of the job accepted at the target's last submission and that the tracked file names exactly those ids. Local backend: BFS over histories incl. worker-pool restarts with the real Client/Server pair: rows = pool's true state of each target's latest accepted task (known finding: id reuse after a restart).",
         note="State-code classes are my reading of the scheduler documentation (permitted sets where the statement is silent). Local pool restarts: see C13/C14 and DESIGN D7.",
     ),
     "C06": dict(
         level="model_checking", design="§4 C06",
         technique="direct enumeration of job-free project states + exhaustive BFS over the simulated scheduler's legal execution orders; fixpoint and minimal-re-run oracle on the real CLI in every terminal state",
         text="Every job-free state of the fork/chain (thorough also diamond) workflow: 3^n per-target output freshness x latest-job outcome none/DONE/FAILED/CANCELLED per target (quick: <=2 jobs), slurm/sge/lsf, hashing on/off, selections default and single target. "
-        "After the real `gwf run`, all legal start/finish orders are explored; in every terminal state status must show every cone target with outputs completed and a re-run must submit none; then every single perturbation (each source modified, each output deleted) must make the next run submit exactly the reference set (thorough: iterated twice).",
+        "After the real `gwf run`, all legal start/finish orders are explored; in every terminal state status must show every cone target with outputs completed and a re-run must submit none; then every single perturbation (each source modified, each output deleted) must make the next run submit exactly the reference set (thorough: iterated twice). Local backend: five histories (fresh, failed/skipped earlier runs, perturbations) x fork/chain x selections, every order in which the pool's processes may exit, same fixpoint and minimal re-run oracle.",
         note="Premise of the property (jobs succeed and create their outputs) is built into the simulator step; simulators are assumptions.",
     ),
     "C07": dict(
         level="model_checking", design="§4 C07",
         technique="explicit-state BFS over gwf invocations and all scheduler schedules; invariant on the enabledness of every pending job against independently recorded prerequisite sets",
         text="BFS to depth 6-7 (thorough deeper) over {run, run X, run Y, start, finish_ok, finish_fail, timeout, cancel} on diamond/fork/chain x slurm/sge/lsf. For every job the harness records from the reference graph which jobs it must wait for; "
-        "in every reachable state: the dependency spec parsed by the simulator's own reader names exactly those ids in the documented form (afterok / hold_jid list / conjunction of done()), and start(j) is enabled iff all of them are DONE (Slurm, LSF) or ended (SGE).",
+        "in every reachable state: the dependency spec parsed by the simulator's own reader names exactly those ids in the documented form (afterok / hold_jid list / conjunction of done()), and start(j) is enabled iff all of them are DONE (Slurm, LSF) or ended (SGE). Local backend: every enqueue_task message sent by gwf's real Client in a BFS over CLI world states (diamond, shortcut; incl. pool restarts) must name exactly the ids of the direct dependencies that were not complete; the pool-side half (a task starts only after those ids completed) is C11.",
         note="Dependency semantics of the three schedulers as implemented in mc/simsched.py (unknown ids rejected by Slurm/LSF, ignored by SGE).",
     ),
     "C09": dict(
         level="fault_enumeration", design="§4 C09",
         technique="exhaustive fault injection at every scheduler-command position x 5 failure kinds and crash snapshots at every scheduler interaction and every open/write/close of a state-file write; follow-up commands checked against the scheduler's accepted-job table",
         text="chain/fork (thorough + diamond) x slurm/sge/lsf x {fresh project, one job in flight}, hashing on. Every command index of the run x {exit 1, 'error:' on stderr, garbage stdout, empty stdout, Python exception}; "
-        "kill -9 snapshots before/after every scheduler command and at open / each write / close of every state-file write. From every resulting state: status and run start normally, no duplicate of an accepted pending/running job, follow-up submissions name accepted jobs as prerequisites, hash records only for accepted targets.",
+        "kill -9 snapshots before/after every scheduler command and at open / each write / close of every state-file write. From every resulting state: status and run start normally, no duplicate of an accepted pending/running job, follow-up submissions name accepted jobs as prerequisites, hash records only for accepted targets. Local backend: connection reset and lost reply at every request of the run, crash snapshots around every request and state-file write. Slurm additionally with accounting disabled; the faulted run itself is also checked for duplicates.",
         note="One known finding (KF-C09-accept-window): kill between the scheduler's acceptance and the rename of the tracked file. Kill = process death, not power loss.",
     ),
     "C17": dict(
         level="model_checking", design="§4 C17",
         technique="explicit-state BFS to reach every mix of job states; per state exhaustive selection x failing-cancel-position enumeration on the real CLI; function-level permutation enumeration of the selected set",
         text="States reached by BFS (depth 5, thorough 7) over {run, run X, start, finish_ok, finish_fail, forget} for slurm/sge/lsf. Per state 13 selections (none with prompt y/n/EOF, -f, each name, patterns, non-matching, two names) and for multi-target selections the k-th cancel command failing (exit 1 / 'error:' on stderr) for every k. "
-        "Cancel requests = latest jobs of the selected targets (each once, all live ones, nothing else); failures reported and not stopping later cancels; declined prompt changes nothing; after the scheduler carried the cancellations out status = reference plan and the next run submits what the plan requires. cancel_many: every permutation of <=3 targets x failing/untracked subsets.",
+        "Cancel requests = latest jobs of the selected targets (each once, all live ones, nothing else); failures reported and not stopping later cancels; declined prompt changes nothing; after the scheduler carried the cancellations out status = reference plan and the next run submits what the plan requires. cancel_many: every permutation of <=3 targets x failing/untracked subsets. Local backend: cancel probes in a BFS over CLI world states with the real Client/Server pair incl. a history with stale high ids after a pool restart: requests = tracked latest tasks, a selected target's own live task never survives, no collateral cancels (known finding: stale ids after restart). Fresh-process tier for 5 cancel invocations.",
         note="Simulated scancel/qdel/bkill; local pool cancel: C13/C14.",
     ),
     "C18": dict(
@@ -92,35 +92,35 @@ CHECKS = {
         level="model_checking", design="§4 C11",
         technique="stateless deviation-bounded DFS over choice sequences (step / process exit / timer / client op) on a hand-stepped asyncio loop running the real Scheduler and Server, with state-hash pruning; spawn monitor + reference final-state table",
         text="All task DAGs on <=3 tasks (thorough 4) with dependencies on earlier ids, cores 1-2 (3), time limit on/off, exit codes {0,1}, one (thorough two) cancel at every script position and target, API and pipelined server delivery, start failure, unknown dependency id; every execution with <=1 (thorough 2) early deliveries. "
-        "Monitor at every spawn: each dependency has an observed process that exited 0 and is COMPLETED; at the horizon: a task with a failed/killed/cancelled dependency never spawned and ended failed resp. cancelled.",
+        "Monitor at every spawn: each dependency has an observed process that exited 0 and is COMPLETED; at the horizon: a task with a failed/killed/cancelled dependency never spawned and ended failed resp. cancelled. Conformance tiers: pruning validated against unpruned exploration on a scenario slice; explored traces replayed against real `sh` children on a stock asyncio loop (final states, spawn set, overlap).",
         note="Fake child processes / clock; asyncio primitives as shipped. Real-process tier: see DESIGN §3.7.",
     ),
     "C12": dict(
         level="model_checking", design="§4 C12",
         technique="same exhaustive schedule exploration; invariant on the live-process count at every spawn and work-conservation check at every quiescent state",
         text="Same executions as C11 plus burst scenarios (failed dependency + skipped dependent followed by >= cores+1 runnable tasks; cancel while waiting for a core; time-out). "
-        "At every spawn: processes alive and not yet sent a kill <= cores. At every quiescent state: if a submitted task has all dependencies completed, the number of tasks holding a core >= cores.",
+        "At every spawn: processes alive and not yet sent a kill <= cores. At every quiescent state: if a submitted task has all dependencies completed, the number of tasks holding a core >= cores. Same conformance tiers as C11.",
         note="The bound counts processes that have not been sent SIGKILL/SIGTERM.",
     ),
     "C13": dict(
         level="model_checking", design="§4 C13",
         technique="same exhaustive schedule exploration; stability monitor on every state and a reference table mapping what happened to a task to its admissible final states",
         text="Same executions plus environment answers: start failure, missing log directory, 70 kB payloads, natural exit racing a kill. Final states never change; no task spawned twice; at the horizon every accepted task is final and in the set ref.pool allows "
-        "(completed iff ran and exited 0 without cancel/time-out; failed/killed for non-zero exit, start failure, time-out, failed dependency; cancelled if a cancel was processed while it was submitted/running or a dependency was cancelled); logs of tasks that ran to their end equal the payloads; no process alive at the horizon.",
+        "(completed iff ran and exited 0 without cancel/time-out; failed/killed for non-zero exit, start failure, time-out, failed dependency; cancelled if a cancel was processed while it was submitted/running or a dependency was cancelled); logs of tasks that ran to their end equal the payloads; no process alive at the horizon. Real-process tier: 5 scripts that spawn children x {cancel, time-out}: afterwards no process carrying the run's token exists in /proc; 4 output scenarios (300 kB on each stream in both orders, interleaved, small + exit 3): logs complete and final state right.",
         note="'No child process keeps running after cancel' needs real processes (sh wrapper vs command): real-process tier / DESIGN D14.",
     ),
     "C14": dict(
         level="model_checking", design="§4 C14",
         technique="exhaustive interleaving exploration of three client connections (real Server.handle_connection coroutines on the virtual loop) over a 21-action misbehaviour alphabet",
         text="Healthy synchronous client H [enqueue a; enqueue b(dep a); states], late healthy client N [enqueue c; states], misbehaving client M performing every sequence of <=1 action (deviation bound 1) and selected sequences of 2 (bound 0) [thorough: all pairs, bounds 2/1] from: garbage, empty line, {}, list, string, unknown kind, enqueue missing/extra field, deps unknown id / wrong type / int, state/cancel of unknown id, cancel of a string id, cancel of H's task, invalid UTF-8, half line + EOF, EOF, reset, failing drain, well-formed enqueue. "
-        "Checked: ids distinct and answered with the task's own id; every task_states answer equals the true table when written; H and N got every owed answer; every accepted task final and admissible.",
+        "Checked: ids distinct and answered with the task's own id; every task_states answer equals the true table when written; H and N got every owed answer; every accepted task final and admissible. Real-socket tier: a real worker pool (start_cluster in its own process, TCP) receives every misbehaviour sequence of length <=1 (thorough 2) from an 18-entry byte-level alphabet (incl. a 70 kB line, invalid UTF-8, half line) x {close, reset, abandon} while gwf's real Client submits and polls before and after.",
         note="Connections are StreamReaders fed by the explorer; real sockets only in the real-socket tier.",
     ),
     "C15": dict(
         level="exploration", design="§4 C15",
         technique="bounded-exhaustive enumeration of clean invocations on the real CLI with a before/after snapshot of the whole project against a reference deletion set",
         text="4 workflows (chain, fork with 2-output target and named output, diamond, two components incl. a no-output target and a nested directory) x missing-file subsets x every protect set (none, each single output in 5 spellings: same, ./x, <proj>/x, <proj>/./x, sub/../x; all; a path protected by a non-producer) x 32 CLI variants "
-        "(--all x --force x 7 target argument forms, prompt answers y / n / EOF). Oracle: exactly the existing unprotected outputs of the selected non-excluded targets disappear; everything else (sources, unrelated files, logs, tracked jobs, contents and mtimes) identical; hash records of exactly the selected targets erased; declined prompt: nothing changes, non-zero exit.",
+        "(--all x --force x 7 target argument forms, prompt answers y / n / EOF). Oracle: exactly the existing unprotected outputs of the selected non-excluded targets disappear; everything else (sources, unrelated files, logs, tracked jobs, contents and mtimes) identical; hash records of exactly the selected targets erased; declined prompt: nothing changes, non-zero exit. Fresh-process tier for 4 clean invocations over the standard worlds.",
         note="Lexical path normalisation.",
     ),
     "C16": dict(
